@@ -427,6 +427,12 @@ fn run_scenario(sc: &Value) -> Value {
                 if let Err(e) = res {
                     r.insert("error".into(), json!(e.to_string()));
                 }
+                if let Some(secs) = st.get("mtime_at").and_then(|x| x.as_u64()) {
+                    // an absolute modification time (seconds since the epoch)
+                    if let Ok(f) = std::fs::OpenOptions::new().write(true).open(&p) {
+                        let _ = f.set_modified(std::time::UNIX_EPOCH + std::time::Duration::from_secs(secs));
+                    }
+                }
                 if let Some(secs) = st.get("mtime_plus").and_then(|x| x.as_u64()) {
                     // make the edit visible to an mtime comparison without sleeping
                     if let Ok(f) = std::fs::OpenOptions::new().write(true).open(&p) {
